@@ -489,6 +489,45 @@ func checkC11(w *Worker) {
 			x.Violate("C11|app|"+srcName+"|chain-lt-N-rejected", fmt.Sprintf("limit %d given through %s, longest chain %d: `%s` failed: %s", n, srcName, L, c.shell(), r.Err), rep)
 		}
 	})
+	// every graph on two recipes and a plain ingredient (self-references, cycles of two, forks, empty recipes) as a FILE read by
+	// the commands that resolve the book: the loader stands between the file and the resolver, and it must hand over
+	// every line that is in the file
+	appCmds := [][]string{{"--no-color", "reg"}, {"--no-color", "bal"}, {"csv", "database-resolved"}, {"report", "element-total", "x"}, {"report", "totals"}, {"--no-color", "summary", "2021/01/24"}, {"report", "unresolved"}}
+	w.Explore("graphs-through-files-and-commands", ExploreOpts{ShardDepth: 3}, func(x *Exec) {
+		all := []string{"r0", "r1", "x"}
+		book := absBook{}
+		for i := 0; i < 2; i++ {
+			mask := x.Choose(8, "input:ingredients")
+			r := absRecipe{Name: all[i]}
+			for j, nm := range all {
+				if mask&(1<<uint(j)) != 0 {
+					r.Ings = append(r.Ings, absIng{nm, float64(1 + j)})
+				}
+			}
+			book = append(book, r)
+		}
+		n := []int{1, 2, 3, 10}[x.Choose(4, "input:maxdepth")]
+		cmd := appCmds[x.Choose(len(appCmds), "input:command")]
+		mh := maxHeight(refHeight(book))
+		wantErr := mh >= n
+		c := appCase{Args: append([]string{"--maxdepth", fmt.Sprint(n)}, cmd...), Files: map[string]string{"food.yaml": renderBook(book), "log.yaml": "2021/01/24:\n  r0: 1\n  r1: 2\n"}}
+		r := runApp(c)
+		x.Obs(fmt.Sprint(r.Failed), r.Err)
+		x.Case(fmt.Sprint(book.String(), n, cmd), true)
+		rep := map[string]interface{}{"cmd": c.shell(), "limit": n, "longest_chain": heightStr(mh), "observed": r.String()}
+		switch {
+		case r.Panic != "":
+			x.Violate("C11|app-graph|panic", fmt.Sprintf("`%s`: %s", c.shell(), r.Panic), rep)
+		case wantErr && (!r.Failed || !strings.Contains(r.Err, depthErrText)):
+			kind := "chain-ge-N-accepted"
+			if mh >= infHeight {
+				kind = "cycle-accepted"
+			}
+			x.Violate("C11|app-graph|"+kind, fmt.Sprintf("book {%s}, limit %d, longest chain %s: `%s` did not fail with the depth error: %s", book, n, heightStr(mh), c.shell(), r.String()), rep)
+		case !wantErr && r.Failed:
+			x.Violate("C11|app-graph|chain-lt-N-rejected", fmt.Sprintf("book {%s}, limit %d, longest chain %d: `%s` failed: %s", book, n, mh, c.shell(), r.Err), rep)
+		}
+	})
 	// pure chains c1 -> c2 -> ... -> cL -> x, around every N
 	maxL, maxN := 6, 8
 	if w.Tier == "thorough" {
